@@ -66,6 +66,10 @@ request_property(
     T def;
     Decoder decoder(encoded_def);
     Codec::decode_one(decoder, def);
+    if (!decoder.finished()) {
+        // the stored length of the default disagrees with its type
+        throw parse_error("property directory: trailing bytes after the default value of property '" + name + "'");
+    }
 
     return entitytag_dispatch(type, [&](auto entity_tag)
     {
